@@ -31,6 +31,9 @@ class HSym:
     def array(self, x):
         return self.np.array(x)
 
+    def num(self, v):
+        return v
+
     def iarray(self, x):
         return nd.ndarray(_np.array(list(x), dtype=_np.int64), _raw=True)
 
@@ -98,6 +101,10 @@ class HConc:
                 return v.tolist()
             return float(v)
         return _np.array(conv(x), dtype=float)
+
+    def num(self, v):
+        """scalar handed to the implementation: a float64"""
+        return float(v)
 
     def iarray(self, x):
         return _np.array(list(x), dtype=_np.int64)
